@@ -294,6 +294,7 @@ fn prepare_response(
     // Content length
     match head.status {
         http::StatusCode::NO_CONTENT
+        | http::StatusCode::NOT_MODIFIED
         | http::StatusCode::CONTINUE
         | http::StatusCode::PROCESSING => *size = BodySize::None,
         http::StatusCode::SWITCHING_PROTOCOLS => {
